@@ -49,9 +49,11 @@ def run(ctx):
         for ext in ('TRUE', 'FALSE'):
             for mode in ('pn', 'semi'):
                 gcfg = ('SPECIFICATION Spec\nCONSTANTS\n MaxLen = %d\n Extend = %s\n PostMode = "%s"\n'
-                        'INVARIANT NoIndexError\nINVARIANT KidsTile\nINVARIANT GroupEdges\n' % (5 if quick else 7, ext, mode))
+                        'INVARIANT NoIndexError\nINVARIANT KidsTile\nINVARIANT GroupEdges\n' % (5 if quick else 7, ext, mode)).replace('CONSTANTS\n', 'CONSTANTS\n Emit = FALSE\n')
                 gr = _tlc.run(ctx.workdir, 'GroupInfix', gcfg, workers=8, label='GroupInfix_%s_%s' % (ext, mode), coverage=False, timeout=900)
                 ctx.add_tlc(gr, 'GroupInfix exhaustive (Extend=%s, post=%s)' % (ext, mode))
+        from .. import infixrun
+        infixrun.replay(ctx, 5 if quick else 6)
         from .. import treeops
         treeops.model_check(ctx, 4 if quick else 5, 3, 'TreeOps')
         nl = 6
